@@ -411,7 +411,27 @@ def is_name_(e, n):
     return isinstance(e, ast.Name) and e.id == n
 
 
+def rule_h(ctx, out):
+    """The comparison looks at byte stores too.  MSTORE8 has no output variable, so its operands are compared nowhere but in the
+    store/load record comparison: every predicate of the verification module that selects MSTORE records must select MSTORE8
+    records as well (the existing code does, through substring tests)."""
+    from ..core.idioms import store_predicates
+    n = 0
+    for f, expr, acc in store_predicates(ctx, {V}):
+        if "MSTORE" not in acc and "MSTORE8" not in acc:
+            continue
+        n += 1
+        if "MSTORE" in acc and "MSTORE8" not in acc:
+            out.bad(f"store-predicate-misses-MSTORE8:{f.name}:{norm(expr)[:50]}", f"in {f.name} the predicate `{short(expr, 70)}` selects MSTORE records but not "
+                    f"MSTORE8 records: byte stores are left out of the comparison", where(f, expr), {"accepts": sorted(acc)})
+        else:
+            out.ok({"function": f.name, "predicate": short(expr, 60), "accepts": sorted(acc)})
+    if n < 4:
+        raise AnalysisError(f"only {n} memory-store predicates found in the verification module")
+
+
 RULES = [
+    ("C05.h", "byte stores take part in the comparison", 4, rule_h),
     ("C05.g", "an unmatched dependence is decided, never skipped", 2, rule_g),
     ("C05.f", "no name-equality shortcut around the structural comparison", 8, rule_f),
     ("C05.e", "a (verdict, reason) pair is never used as a truth value", 15, rule_e),
